@@ -108,3 +108,27 @@ package types
 //@   ensures result != nil && fresh(result) && result.Equity != nil && fresh(result.Equity) && result.AssetCode == equity.AssetCode && result.AssetId == equity.AssetId
 //@   ensures equity.Equity != nil ==> val(result.Equity) == val(equity.Equity)
 //@   ensures equity.Equity == nil ==> val(result.Equity) == 0
+
+// balances (ghost: balanceOf); SetBalance panics on a negative balance (chain/account.(*Account).SetBalance)
+//@ func (AccountAccessor).GetBalance   trusted
+//@   modifies nothing
+//@   ensures result != nil && fresh(result) && val(result) == balanceOf(recv)
+//@ func (AccountAccessor).SetBalance   trusted
+//@   panics_if balance == nil || val(balance) < 0
+//@   modifies gh("balance", recv)
+//@   ensures balanceOf(recv) == val(balance)
+
+// the block gas counter
+//@ func (*GasPool).SubGas
+//@   props C05
+//@   requires gp != nil
+//@   modifies *gp
+//@   ensures old(*gp) >= amount ==> result == nil && *gp == old(*gp) - amount
+//@   ensures old(*gp) < amount ==> result == ErrGasLimitReached && *gp == old(*gp)
+//@   nopanic
+//@ func (*GasPool).AddGas
+//@   props C05
+//@   requires gp != nil
+//@   panics_if *gp + amount > 18446744073709551615
+//@   modifies *gp
+//@   ensures *gp == old(*gp) + amount && result == gp
